@@ -342,6 +342,75 @@ let do_dir t =
   let (_, rs) = drun ascii_eqfold true d ops in
   out_list (fun r -> "R " ^ string_of_z r.res_code ^ " " ^ out_list out_dentry r.res_entries) rs
 
+(* ---------- lifecycle scenarios on the LTS (Sys.v) ---------- *)
+let next_hstep t : hstep =
+  match next t with
+  | "b" -> HBarrier (nat_of_int (next_int t))
+  | "p" -> HPanic | "w" | "W" -> HWrite | "hs" -> HHandshake
+  | k -> failwith ("bad hstep " ^ k)
+let next_item t : item =
+  match next t with
+  | "req" -> let k = (match next t with "normal" -> KNormal | "starttls" -> KStartTLS | "unbind" -> KUnbind | k -> failwith ("bad kind " ^ k)) in
+             let _msgid = next t in
+             IReq (k, next_list t next_hstep)
+  | "bad" -> IBad
+  | "hello" -> IHello
+  | k -> failwith ("bad item " ^ k)
+(* one scenario operation = one or several environment labels, then quiescence *)
+let next_life_op t : label list =
+  match next t with
+  | "run" -> let v = next_bool t in let o = next_bool t in [ECallRun (v, o)]
+  | "stop" -> [ECallStop]
+  | "connect" -> [EConnect]
+  | "send" -> let c = nat_of_int (next_int t) in List.map (fun it -> ESend (c, it)) (next_list t next_item)
+  | "close" -> [EClose (nat_of_int (next_int t))]
+  | "stall" -> let c = nat_of_int (next_int t) in [EStall (c, next_bool t)]
+  | "release" -> [ERelease (nat_of_int (next_int t))]
+  | "holdonclose" -> [EHoldOnClose (next_bool t)]
+  | "accepterr" -> [EAcceptErr]
+  | k -> failwith ("bad life op " ^ k)
+let cfg_of_string (s : string) : config =
+  let parts = String.split_on_char ':' s in
+  let base = (match List.hd parts with "fixed" -> fixed_cfg | "pinned" -> pinned_cfg | k -> failwith ("bad cfg " ^ k)) in
+  List.fold_left (fun c kv ->
+      match String.split_on_char '=' kv with
+      | [k; v] ->
+        let b = (v = "1") in
+        (match k with
+         | "recovery" -> { c with recovery = b } | "handler_rec" -> { c with handler_rec = b }
+         | "wg_last" -> { c with wg_last = b } | "add_before_accept" -> { c with add_before_accept = b }
+         | "stop_interrupts" -> { c with stop_interrupts = b } | "ready_on_error" -> { c with ready_on_error = b }
+         | "close_on_cancel" -> { c with close_on_cancel = b } | "unbind" -> { c with has_unbind_route = b }
+         | "onclose" -> { c with has_onclose = b }
+         | "addr" | "tls" | "readtimeout" | "race" -> c     (* worker options, not model parameters *)
+         | _ -> failwith ("bad cfg key " ^ k))
+      | _ -> failwith "bad cfg kv") base (List.tl parts)
+let kind_char = function KNormal -> "n" | KStartTLS -> "t" | KUnbind -> "u"
+let snapshot (s : state) : string =
+  let runs = (match s.run with RNot -> "none" | RRet e -> if e then "err" else "ok" | _ -> "running") in
+  let nret = List.length (List.filter (fun p -> p = SRet) s.stops) in
+  let conn_s i (c : conn) =
+    Printf.sprintf "c%d:id=%d,started=[%s],ended=[%s],closed=%s,onclose=%d" i (int_of_nat c.cid)
+      (String.concat ";" (List.map (fun (r, k) -> string_of_int r ^ kind_char k)
+                            (List.sort compare (List.map (fun (r, k) -> (int_of_nat r, k)) c.started))))
+      (String.concat ";" (List.map (fun r -> string_of_int (int_of_nat r)) (List.sort compare c.ended)))
+      (b01 c.sock_closed) (int_of_nat c.onclose) in
+  Printf.sprintf "alive=%s ready=%s run=%s stops=%d/%d port=%s %s" (b01 s.alive) (b01 s.ready) runs nret
+    (List.length s.stops) (b01 s.port_bound) (String.concat " " (List.mapi conn_s s.conns))
+let do_life t =
+  let cfg = cfg_of_string (next t) in
+  let ops = next_list t next_life_op in
+  let fuel = nat_of_int 20000 in
+  let rec go s ops acc =
+    match ops with
+    | [] -> List.rev acc
+    | labels :: rest ->
+      let s' = List.fold_left (fun so l -> match so with None -> None | Some s -> step cfg s l) (Some s) labels in
+      (match s' with
+       | None -> List.rev ("DISABLED" :: acc)
+       | Some s2 -> let s3 = quiesce cfg fuel s2 in go s3 rest (snapshot s3 :: acc)) in
+  String.concat " # " (go init ops [])
+
 let dispatch kind t =
   match kind with
   | "convert" -> do_convert t
@@ -363,6 +432,7 @@ let dispatch kind t =
   | "serve" -> do_serve t
   | "muxreg" -> do_muxreg t
   | "dir" -> do_dir t
+  | "life" -> do_life t
   | k -> failwith ("unknown kind " ^ k)
 
 let () =
